@@ -8,5 +8,6 @@ let () =
   | "run" -> D_run.run ()
   | "expect" -> D_expect.run ()
   | "rules" -> D_rules.run ()
+  | "cram" -> D_docs.run_cram ()
   | "validate" -> D_exec.run_validate ()
   | x -> prerr_endline ("unknown " ^ x); exit 2
